@@ -226,3 +226,14 @@ Proof. split; [apply Exists_cons_tl, Exists_cons_tl, Exists_cons_hd; vm_compute;
 Theorem C07_cap2_maxcomplength : forall (l : list N) m x, In x l -> x <= fold_left N.max l m.
 Proof. exact maxcomplength_ge. Qed.
 Print Assumptions C07_cap2_maxcomplength.
+
+(* StatCoder::encodeString after the repair: 4 * strLen + 1 bytes are enough for every table and every pattern *)
+Theorem C07_cap2_encode_string_plus1_ok : forall bl q, Forall (fun k => k <= 32) bl ->
+  snd (tmp_encode (map (sym_bits bl) (q ++ [0]))) <= 4 * (lenN q + 1) + 1.
+Proof. exact encode_string_p1_ok. Qed.
+Print Assumptions C07_cap2_encode_string_plus1_ok.
+
+Theorem C07_cap2_encode_string_old_refuted :
+  exists bits, Forall (fun b => b <= 32) bits /\ lenN bits = 1 /\ 4 * 1 < snd (tmp_encode bits).
+Proof. exact encode_string_old_refuted. Qed.
+Print Assumptions C07_cap2_encode_string_old_refuted.
